@@ -162,7 +162,8 @@ LeafElem(n) ==
     [] n = "float32" -> << F("nan"), F("+0"), F("-0"), F("0.1") >>
     [] n = "complex128" -> << C("nan", "1"), C("+0", "-0"), C("-0", "+0"), C("1", "1") >>
     [] n = "complex64"  -> << C("nan", "1"), C("+0", "-0"), C("1", "1") >>
-    [] n = "string" -> << S(<<>>), S(<<36>>), S(<<92>>), S(<<36, 36>>), S(<<92, 36>>), S(<<97>>) >>
+    \* "" $ \ \$ $\ a : concatenations of these are ambiguous under every incomplete escaping of a $-joined key
+    [] n = "string" -> << S(<<>>), S(<<36>>), S(<<92>>), S(<<92, 36>>), S(<<36, 92>>), S(<<97>>) >>
     [] n \in {"ptr", "ptrS", "chan", "uptr"} -> << P(0), P(1), P(2) >>
     [] n = "ptrA" -> << P(0), P(1), P(3), Pf(3, 1) >>
     [] n = "any"  -> << NilI, D(TI32, I(0, 1)), D(Tf, I(0, 1)), D(Tg, I(0, 1)), USlice >>
